@@ -2,7 +2,7 @@
    (compiled once; the generated case files only import it). *)
 From Coq Require Import ZArith NArith List Bool.
 From SlskGen Require Import TransGen.
-From Slsk Require Import C03.Spec C03.Model.
+From Slsk Require Import C03.Spec C03.Model C03.Listen.
 Import ListNotations.
 Open Scope Z_scope.
 Definition zo (o : option N) : Z := match o with None => -1 | Some n => Z.of_N n end.
@@ -59,12 +59,26 @@ Fixpoint dec_sched (fuel : nat) (n : Z) (cs : list call) : list ev :=
       else Start (Z.to_nat (d - 2)) :: dec_sched f r cs
   end.
 Definition dummy_t : transfer := mkT UNSET Upload None None false None None 0%N 0%N 0%N false false false false TNone TNone.
+(* runs with three listeners of which the first suspends (kind 3) *)
+Definition enc_lobs (o : lobs) : list Z :=
+  match o with LSeen li a b => [2; Z.of_nat li; st_value a; st_value b] | LRet i r => [1; Z.of_nat i; zb r] end.
+Fixpoint lrun_tr (ls : list bool) (m : lmach) (es : list ev) : list (list Z) * lmach :=
+  match es with
+  | [] => ([], m)
+  | e :: r => let '(m1, o) := lstep ls m e in let '(l, m2) := lrun_tr ls m1 r in (flat_map enc_lobs o :: l, m2)
+  end.
+Definition ldone (m : lmach) : bool :=
+  match l_holder m, l_waiters m, l_created m with None, [], [] => true | _, _, _ => false end.
+Definition lconc_out (t : transfer) (es : list ev) : list (list Z) :=
+  let '(l, m) := lrun_tr [true; false; false] (lidle t) es in l ++ [enc_t (l_t m); [zb (ldone m)]].
+
 Definition run_case (ts : list transfer) (css : list (list call)) (c : Z * Z * Z * Z * Z) : bool :=
   match c with (kind, ti, ci, sched, fp) =>
     let t := nth (Z.to_nat ti) ts dummy_t in
     let cs := nth (Z.to_nat ci) css [] in
     let out := if Z.eqb kind 0 then seq_out t cs
                else if Z.eqb kind 1 then conc_out t (dec_sched 80 sched cs)
+               else if Z.eqb kind 3 then lconc_out t (dec_sched 80 sched cs)
                else conc_flat t (dec_sched 80 sched cs) in
     Z.eqb (hh out) fp
   end.
